@@ -265,7 +265,12 @@ GEN_INIT = (" ALSO, harness/translate_init.py re-translates Initializer.__init__
             "and add_n_random_init_pos of init_positions.py into generated/InitGen.v on every run (_init_grid_search / _init_vertices are abstract, "
             "pinned by digest); proofs/InitTie.v proves the generated _init_warm_start equal to Init.init_warm_start and the generated set_pos to be "
             "Init.assemble of the parts.")
+GEN_SMBO = (" ALSO, harness/translate_smbo.py re-translates the wrappers of SMBO.track_X_sample / track_y_sample and the bodies of SMBO.evaluate / "
+            "evaluate_init (smb_opt/smbo.py) into generated/SmboGen.v on every run (decorator lists checked, _remove_position pinned by digest); "
+            "proofs/SmboTie.v proves one generated driver step equal to the model's smbo_step. Theorems C17_source_step_refines, "
+            "C17_source_track_y_refines, C17_source_evaluate_refines.")
 EXTRA = {
+    "C17": GEN_SMBO,
     "C12": GEN_STOP + " Theorems C12_source_score_exceeded_refines, C12_source_check_refines." + GEN_SEARCH + " Theorem C12_source_search_max_score_exact.",
     "C03": GEN_SEARCH + " Theorems C03_source_search_step_refines, C03_source_search_loop_refines, C03_source_call_accounting.",
     "C18": GEN_SEARCH + " Theorem C18_source_search_step_refines (the translated search_step is the model step that C18_search_eq_steps is about).",
@@ -333,8 +338,8 @@ def main():
                    source_commits=[], add_only=True),
         engines=[
             dict(name="coq-model", path="/verif/coq", serves_properties=sorted(CLAIMS), kind_free_text="hand-written Gallina model (theories/), lemmas (proofs/), property theorems (props/Prop_Cxx.v, each with Print Assumptions)"),
-            dict(name="source-translators", path="/verif/harness/pytrans.py", serves_properties=["C01", "C02", "C03", "C04", "C05", "C06", "C08", "C10", "C11", "C12", "C13", "C14", "C15", "C16", "C18", "C19"],
-                 kind_free_text="translate_facades.py (C18 data), translate_core.py (tracker layer: C15, C19), translate_driver.py (_stop_run.py, _progress_bar.py: C05, C12-C14), translate_grid.py (grid search: C16, C08), translate_search.py (search.py driver: C03, C12-C14, C18), translate_memory.py (_memory.py wrapper: C06, C11), translate_results.py (_results_manager.py wrapper: C04), translate_coreopt.py (core_optimizer.py moves: C01, C02, C08), translate_init.py (init_positions.py: C10, C02): Gallina regenerated from /repo's AST on every run, refinement to the hand model proved in proofs/*Tie.v"),
+            dict(name="source-translators", path="/verif/harness/pytrans.py", serves_properties=["C01", "C02", "C03", "C04", "C05", "C06", "C08", "C10", "C11", "C12", "C13", "C14", "C15", "C16", "C17", "C18", "C19"],
+                 kind_free_text="translate_facades.py (C18 data), translate_core.py (tracker layer: C15, C19), translate_driver.py (_stop_run.py, _progress_bar.py: C05, C12-C14), translate_grid.py (grid search: C16, C08), translate_search.py (search.py driver: C03, C12-C14, C18), translate_memory.py (_memory.py wrapper: C06, C11), translate_results.py (_results_manager.py wrapper: C04), translate_coreopt.py (core_optimizer.py moves: C01, C02, C08), translate_init.py (init_positions.py: C10, C02), translate_smbo.py (smbo.py bookkeeping: C17): Gallina regenerated from /repo's AST on every run, refinement to the hand model proved in proofs/*Tie.v"),
             dict(name="correspondence", path="/verif/harness", serves_properties=sorted(CLAIMS), kind_free_text="K/D/S units: implementation and model run on the same inputs; the model is evaluated inside Coq (generated cases files, vm_compute)"),
             dict(name="monitors", path="/verif/harness/props", serves_properties=sorted(CLAIMS), kind_free_text="direct Python encodings of each property used to find concrete failing inputs (replays); never the proof"),
         ],
